@@ -42,6 +42,7 @@ VARIANTS = {
     "hook": ["-DKENTBECK_BPLUSTREE3_VERIF"],
     "asan": ["-DKENTBECK_BPLUSTREE3_VERIF", "-fsanitize=address", "-fno-omit-frame-pointer"],
 }
+HISTORY_TIMEOUT = int(os.environ.get("C_HARNESS_HIST_TIMEOUT", "120"))      # seconds per history
 PKG_DIR = {"hook": os.path.join(BUILD, "cpkg"), "plain": os.path.join(BUILD, "cpkg_plain"),
            "asan": os.path.join(BUILD, "cpkg_asan")}
 
@@ -543,7 +544,9 @@ def worker(variant, ops_path, trace_path, viol_path, start, status_path):
             def status(step, idx=idx, hid=hid):
                 os.pwrite(sfd, ("%d %s %d" % (idx, hid, step)).ljust(60).encode(), 0)
             w = World((mod, pkg), h[0], h[1:], variant)
+            signal.alarm(HISTORY_TIMEOUT)      # watchdog: SIGALRM kills the worker, the parent reports non-termination
             w.run(status)
+            signal.alarm(0)
             tf.write("\n".join(w.out) + "\n")
             tf.flush()
             if w.viol:
@@ -595,8 +598,8 @@ def run_pass(variant, ops_path, trace_path, viol_path, oracle_filter=None):
         if rc == 3 or ("Traceback (most recent call last)" in err and "AddressSanitizer" not in err and rc == 1):
             sys.stderr.write("harness error in history %s step %s (variant %s):\n%s\n" % (hid, step, variant, err[-3000:]))
             return 2
-        if timed_out:
-            what = "timeout (non-termination)"
+        if timed_out or rc == -signal.SIGALRM:
+            what = "timeout (non-termination: one history ran for more than %d s)" % HISTORY_TIMEOUT
             prop = "C12"
         else:
             prop = "C13"
@@ -658,7 +661,7 @@ def main(argv):
     if os.environ.get("C_HARNESS_ASAN") == "1":
         # the oracles already ran on the hook build; keep what only this pass can see
         rc = run_pass("asan", ops_path, trace_path + ".asan", viol_path,
-                      lambda l: "crashed" in l or "timeout" in l)
+                      lambda l: "crashed" in l)
         if rc:
             return rc
     return 0
